@@ -188,7 +188,8 @@ pub fn generate(seed: u64, tier: &str, sink: &mut Sink) {
         } else {
             let s = *rng.pick(&[1usize, 7, 100, 8192, 65536, 1 << 20]);
             // every read may consume as little as one segment
-            let k = if s < 100 { data.len() / s + segs.len() + 3 } else { data.len() / s + segs.len() + wire.len() / 64 + 8 };
+            // (a read may also stop short at the end of a chunk: one extra read per 64 wire bytes covers every chunking)
+            let k = data.len() / s + segs.len() + wire.len() / 64 + 8;
             if k > 6000 && transient {
                 Reads::Sizes(vec![1 << 16; 40])
             } else if k > 6000 {
